@@ -159,21 +159,13 @@ package keeper
 //@ layer L2
 //@ ensures[set] st.attesters.has[key.Attester] && st.attesters.val[key.Attester] == key.Attester
 //@ ensures[set.card] st.nAtt == (old(st.attesters.has[key.Attester]) ? old(st.nAtt) : old(st.nAtt) + 1)
-//@ modifies st.attesters[key.Attester], st.nAtt
+//@ modifies st.attesters[key.Attester], st.nAtt, st.attList
 
 //@ func (Keeper) DeleteAttester(ctx, key)
 //@ layer L2
 //@ ensures[del] !st.attesters.has[key]
 //@ ensures[del.card] st.nAtt == (old(st.attesters.has[key]) ? old(st.nAtt) - 1 : old(st.nAtt))
-//@ modifies st.attesters[key], st.nAtt
-
-// The list is the prefix range of the store in key order; its length is the collection's cardinal.
-//@ func (Keeper) GetAllAttesters(ctx) (list)
-//@ layer L2
-//@ trusted
-//@ ensures[all.len] len(list) == st.nAtt
-//@ ensures[all.member] forall j: int :: 0 <= j && j < len(list) ==> st.attesters.has[list[j].Attester]
-//@ modifies none
+//@ modifies st.attesters[key], st.nAtt, st.attList
 
 // ---- per-message burn limits
 
@@ -347,7 +339,7 @@ package keeper
 //@ ensures[C10.total C12.admin] msg.From == old(st.attesterManager.val) && len(fromHex(msg.Attester)) > 0 && !old(st.attesters.has[msg.Attester]) && !emitErr(0) ==> err == nil
 //@ emits[C15.event]    [AttesterEnabled{Attester: msg.Attester}]
 //@ calls[C04.others C05.others] []
-//@ modifies[C15.frame C19.frame C11.frame C12.frame C02.frame C07.frame] st.attesters[msg.Attester], st.nAtt
+//@ modifies[C15.frame C19.frame C11.frame C12.frame C02.frame C07.frame] st.attesters[msg.Attester], st.nAtt, st.attList
 
 //@ func (msgServer) DisableAttester(goCtx, msg) (resp, err)
 //@ requires inited()
@@ -358,7 +350,7 @@ package keeper
 //@ ensures[C10.total C12.admin] msg.From == old(st.attesterManager.val) && len(fromHex(msg.Attester)) > 0 && old(st.attesters.has[msg.Attester]) && old(st.nAtt) != 1 && old(st.threshold.set) && uint32(old(st.nAtt)) > old(st.threshold.val) && !emitErr(0) ==> err == nil
 //@ emits[C15.event]    [AttesterDisabled{Attester: msg.Attester}]
 //@ calls[C04.others C05.others] []
-//@ modifies[C15.frame C19.frame C11.frame C12.frame C02.frame C07.frame] st.attesters[msg.Attester], st.nAtt
+//@ modifies[C15.frame C19.frame C11.frame C12.frame C02.frame C07.frame] st.attesters[msg.Attester], st.nAtt, st.attList
 
 //@ func (msgServer) UpdateSignatureThreshold(goCtx, msg) (resp, err)
 //@ requires inited()
@@ -448,3 +440,144 @@ package keeper
 //@ emits[C15.event]    [SetBurnLimitPerMessage{Token: lower(msg.LocalToken), BurnLimitPerMessage: msg.Amount}]
 //@ calls[C04.others C05.others] []
 //@ modifies[C15.frame C19.frame C11.frame C12.frame C13.frame C02.frame C07.frame] st.burnLimits[lower(msg.LocalToken)]
+
+// ======================================================================= L3: message flows
+// Success conditions are exact (<==>): every condition of the property statements appears once, with the
+// literal offsets of the wire format. emitErr(k) / depFails(k) are the outcomes of this call's k-th event
+// emission / dependency call (free inputs: any subset may fail).
+
+//@ macro srPausedIn(s)  := s.srPaused.set && s.srPaused.val
+//@ macro bmPausedIn(s)  := s.bmPaused.set && s.bmPaused.val
+//@ macro bodyFits(s, n) := !(s.maxBody.set && uint64(n) > s.maxBody.val)
+//@ macro nextNonceOf(s) := (s.nextNonce.set ? s.nextNonce.val : 0)
+
+// ---- attestation (C01)
+
+//@ func VerifyAttestationSignatures(message, attestation, publicKeys, signatureThreshold) (err)
+//@ trusted
+//@ ensures[def] (err == nil) <==> validAtt(message, old(attestation), publicKeys, signatureThreshold)
+//@ assigns attestation
+
+//@ func (Keeper) GetAllAttesters(ctx) (list)
+//@ layer L2
+//@ trusted
+//@ ensures[all] list == stAttesters()
+//@ modifies none
+
+// ---- the one place outbound bytes are assembled
+
+//@ func (msgServer) sendMessage(ctx, destinationDomain, recipient, destinationCaller, messageSender, nonce, messageBody) (err)
+//@ ensures[C12.sr C09.sr C03.sr] err == nil ==> !srPausedIn(st)
+//@ ensures[C08.ok C09.ok C06.ok C14.ok C05.ok C07.ok] (err == nil) <==> (!srPausedIn(st) && bodyFits(st, len(messageBody)) && len(recipient) == 32 && recipient != zeros(32) && len(destinationCaller) == 32 && len(messageSender) == 32 && !emitErr(0))
+//@ emits[C06.layout C05.layout C07.layout C09.layout C14.layout C12.layout C08.layout] [MessageSent{Message: encMessage(0, 4, destinationDomain, nonce, messageSender, recipient, destinationCaller, messageBody)}]
+//@ calls []
+//@ modifies none
+
+//@ macro sendOK(s, from, recipient, body) := validBech32(from) && !srPausedIn(s) && bodyFits(s, len(body)) && len(recipient) == 32 && recipient != zeros(32)
+
+//@ func (msgServer) SendMessage(goCtx, msg) (resp, err)
+//@ ensures[C12.sr] err == nil ==> !srPausedIn(old(st))
+//@ ensures[C08.ok C06.ok C14.ok C05.ok] (err == nil) <==> (sendOK(old(st), msg.From, msg.Recipient, msg.MessageBody) && !emitErr(0))
+//@ ensures[C07.stamp C06.nonce C14.nonce C05.nonce C08.nonce] err == nil ==> resp.Nonce == nextNonceOf(old(st)) && st.nextNonce.set && st.nextNonce.val == resp.Nonce + 1
+//@ emits[C05.sender C06.layout C07.emitted C14.emitted C12.emitted C08.emitted] [MessageSent{Message: encMessage(0, 4, msg.DestinationDomain, nextNonceOf(old(st)), pad32(accBytes(msg.From)), msg.Recipient, zeros(32), msg.MessageBody)}]
+//@ calls[C04.others C05.others] []
+//@ modifies[C15.frame C11.frame C12.frame C13.frame C02.frame C07.frame C05.frame C06.frame C08.frame C14.frame] st.nextNonce
+
+//@ func (msgServer) SendMessageWithCaller(goCtx, msg) (resp, err)
+//@ ensures[C12.sr] err == nil ==> !srPausedIn(old(st))
+//@ ensures[C08.ok C06.ok C14.ok C05.ok] (err == nil) <==> (sendOK(old(st), msg.From, msg.Recipient, msg.MessageBody) && len(msg.DestinationCaller) == 32 && msg.DestinationCaller != zeros(32) && !emitErr(0))
+//@ ensures[C07.stamp C06.nonce C14.nonce C05.nonce C08.nonce] err == nil ==> resp.Nonce == nextNonceOf(old(st)) && st.nextNonce.set && st.nextNonce.val == resp.Nonce + 1
+//@ emits[C05.sender C06.layout C07.emitted C14.emitted C12.emitted C08.emitted] [MessageSent{Message: encMessage(0, 4, msg.DestinationDomain, nextNonceOf(old(st)), pad32(accBytes(msg.From)), msg.Recipient, msg.DestinationCaller, msg.MessageBody)}]
+//@ calls[C04.others C05.others] []
+//@ modifies[C15.frame C11.frame C12.frame C13.frame C02.frame C07.frame C05.frame C06.frame C08.frame C14.frame] st.nextNonce
+
+// ---- deposits (C05, C06, C08, C14)
+
+// depositPre: everything checked before funds move; depositLate: the checks made after the burn (C14: they must
+// still turn into an error). `caller` is empty for the plain variant.
+//@ macro depositPre(s, from, amount, dst, mintRecipient, burnToken) := validBech32(from) && !amount.isnil && amount.v > 0 && mintRecipient != nil && mintRecipient != zeros(32) && s.messengers.has[dst] && foldEq(mintingDenom(), burnToken) && !bmPausedIn(s) && !(s.burnLimits.has[lower(burnToken)] && amount.v > s.burnLimits.amt[lower(burnToken)])
+//@ macro depositLate(s, dst, mintRecipient, caller) := len(mintRecipient) == 32 && !srPausedIn(s) && bodyFits(s, 132) && len(s.messengers.addr[dst]) == 32 && s.messengers.addr[dst] != zeros(32) && (len(caller) == 0 || (len(caller) == 32 && caller != zeros(32)))
+//@ macro burnBody(from, amount, mintRecipient, burnToken) := encBurn(0, keccak(lower(burnToken)), mintRecipient, amount, pad32(accBytes(from)))
+//@ macro depositMessage(s, from, amount, dst, mintRecipient, burnToken, caller) := encMessage(0, 4, dst, nextNonceOf(s), modulePadded(), s.messengers.addr[dst], (len(caller) == 0 ? zeros(32) : caller), burnBody(from, amount, mintRecipient, burnToken))
+
+// Stored burn limits are never nil (SetPerMessageBurnLimit's contract); validDenom is what sdk.NewCoin demands.
+//@ func (msgServer) depositForBurn(ctx, from, amount, destinationDomain, mintRecipient, burnToken, destinationCaller) (nonce, err)
+//@ requires[C20.amount]  !amount.isnil
+//@ requires[C20.denom]   foldEq(mintingDenom(), burnToken) ==> validDenom(burnToken)
+//@ requires[rep.limits]  st.burnLimits.has[lower(burnToken)] ==> !st.burnLimits.nil[lower(burnToken)]
+//@ ensures[C08.ok C14.ok] (err == nil) <==> (depositPre(old(st), from, amount, destinationDomain, mintRecipient, burnToken) && !depFails(0) && !depFails(1) && depositLate(old(st), destinationDomain, mintRecipient, destinationCaller) && !emitErr(0) && !emitErr(1))
+//@ ensures[C12.bm]       err == nil ==> !bmPausedIn(old(st)) && !srPausedIn(old(st))
+//@ ensures[C14.dep]      depFails(0) || depFails(1) ==> err != nil
+//@ ensures[C05.denom]    err == nil ==> foldEq(mintingDenom(), burnToken) && amount.v > 0
+//@ ensures[C07.stamp C06.nonce C05.nonce C14.nonce C08.nonce] err == nil ==> nonce == nextNonceOf(old(st)) && st.nextNonce.set && st.nextNonce.val == nonce + 1
+//@ emits[C06.deposit C05.body C07.emitted C14.emitted C12.emitted C08.emitted] [MessageSent{Message: depositMessage(old(st), from, amount, destinationDomain, mintRecipient, burnToken, destinationCaller)}, DepositForBurn{Nonce: nextNonceOf(old(st)), BurnToken: hexenc(keccak(burnToken)), Amount: amount, Depositor: from, MintRecipient: mintRecipient, DestinationDomain: destinationDomain, DestinationTokenMessenger: old(st.messengers.addr[destinationDomain]), DestinationCaller: destinationCaller}]
+//@ calls[C05.backed C14.backed C04.others C08.backed] [BankSend{From: accBytes(from), Module: "cctp", Denom: burnToken, Amount: amount.v}, Burn{From: bech32(moduleAddr), Denom: burnToken, Amount: amount}]
+//@ modifies[C15.frame C11.frame C12.frame C13.frame C02.frame C07.frame C05.frame C06.frame C08.frame C14.frame] st.nextNonce
+
+//@ func (msgServer) DepositForBurn(goCtx, msg) (resp, err)
+//@ requires[C20.amount]  !msg.Amount.isnil
+//@ requires[C20.denom]   foldEq(mintingDenom(), msg.BurnToken) ==> validDenom(msg.BurnToken)
+//@ requires[rep.limits]  st.burnLimits.has[lower(msg.BurnToken)] ==> !st.burnLimits.nil[lower(msg.BurnToken)]
+//@ ensures[C08.ok C14.ok] (err == nil) <==> (depositPre(old(st), msg.From, msg.Amount, msg.DestinationDomain, msg.MintRecipient, msg.BurnToken) && !depFails(0) && !depFails(1) && depositLate(old(st), msg.DestinationDomain, msg.MintRecipient, "") && !emitErr(0) && !emitErr(1))
+//@ ensures[C12.bm]       err == nil ==> !bmPausedIn(old(st)) && !srPausedIn(old(st))
+//@ ensures[C14.dep]      depFails(0) || depFails(1) ==> err != nil
+//@ ensures[C05.denom]    err == nil ==> foldEq(mintingDenom(), msg.BurnToken) && msg.Amount.v > 0
+//@ ensures[C07.stamp C06.nonce] err == nil ==> resp.Nonce == nextNonceOf(old(st)) && st.nextNonce.set && st.nextNonce.val == resp.Nonce + 1
+//@ emits[C06.deposit C05.body C07.emitted C14.emitted] [MessageSent{Message: depositMessage(old(st), msg.From, msg.Amount, msg.DestinationDomain, msg.MintRecipient, msg.BurnToken, "")}, DepositForBurn{Nonce: nextNonceOf(old(st)), BurnToken: hexenc(keccak(msg.BurnToken)), Amount: msg.Amount, Depositor: msg.From, MintRecipient: msg.MintRecipient, DestinationDomain: msg.DestinationDomain, DestinationTokenMessenger: old(st.messengers.addr[msg.DestinationDomain]), DestinationCaller: ""}]
+//@ calls[C05.backed C14.backed C04.others] [BankSend{From: accBytes(msg.From), Module: "cctp", Denom: msg.BurnToken, Amount: msg.Amount.v}, Burn{From: bech32(moduleAddr), Denom: msg.BurnToken, Amount: msg.Amount}]
+//@ modifies[C15.frame C11.frame C12.frame C13.frame C02.frame C07.frame] st.nextNonce
+
+//@ func (msgServer) DepositForBurnWithCaller(goCtx, msg) (resp, err)
+//@ requires[C20.amount]  !msg.Amount.isnil
+//@ requires[C20.denom]   foldEq(mintingDenom(), msg.BurnToken) ==> validDenom(msg.BurnToken)
+//@ requires[rep.limits]  st.burnLimits.has[lower(msg.BurnToken)] ==> !st.burnLimits.nil[lower(msg.BurnToken)]
+//@ ensures[C08.ok C14.ok] (err == nil) <==> (len(msg.DestinationCaller) == 32 && msg.DestinationCaller != zeros(32) && depositPre(old(st), msg.From, msg.Amount, msg.DestinationDomain, msg.MintRecipient, msg.BurnToken) && !depFails(0) && !depFails(1) && depositLate(old(st), msg.DestinationDomain, msg.MintRecipient, msg.DestinationCaller) && !emitErr(0) && !emitErr(1))
+//@ ensures[C12.bm]       err == nil ==> !bmPausedIn(old(st)) && !srPausedIn(old(st))
+//@ ensures[C14.dep]      depFails(0) || depFails(1) ==> err != nil
+//@ ensures[C05.denom]    err == nil ==> foldEq(mintingDenom(), msg.BurnToken) && msg.Amount.v > 0
+//@ ensures[C07.stamp C06.nonce] err == nil ==> resp.Nonce == nextNonceOf(old(st)) && st.nextNonce.set && st.nextNonce.val == resp.Nonce + 1
+//@ emits[C06.deposit C05.body C07.emitted C14.emitted] [MessageSent{Message: depositMessage(old(st), msg.From, msg.Amount, msg.DestinationDomain, msg.MintRecipient, msg.BurnToken, msg.DestinationCaller)}, DepositForBurn{Nonce: nextNonceOf(old(st)), BurnToken: hexenc(keccak(msg.BurnToken)), Amount: msg.Amount, Depositor: msg.From, MintRecipient: msg.MintRecipient, DestinationDomain: msg.DestinationDomain, DestinationTokenMessenger: old(st.messengers.addr[msg.DestinationDomain]), DestinationCaller: msg.DestinationCaller}]
+//@ calls[C05.backed C14.backed C04.others] [BankSend{From: accBytes(msg.From), Module: "cctp", Denom: msg.BurnToken, Amount: msg.Amount.v}, Burn{From: bech32(moduleAddr), Denom: msg.BurnToken, Amount: msg.Amount}]
+//@ modifies[C15.frame C11.frame C12.frame C13.frame C02.frame C07.frame] st.nextNonce
+
+// ---- receive (C02, C03, C04, C14)
+// m is the attested message; fields by the literal offsets of the wire format:
+//   version m[0:4] source m[4:8] destination m[8:12] nonce m[12:20] sender m[20:52] recipient m[52:84]
+//   caller m[84:116] body m[116:] = version m[116:120] burnToken m[120:152] mintRecipient m[152:184]
+//   amount m[184:216] messageSender m[216:248]
+
+//@ macro attested(s, m, att)  := !srPausedIn(s) && s.nAtt != 0 && s.threshold.set && validAtt(m, att, stAttestersOf(s), s.threshold.val)
+//@ macro headerOK(s, m, from) := len(m) >= 116 && u32be(m, 8) == 4 && (m[84:116] == zeros(32) || bech32(m[96:116]) == from) && u32be(m, 0) == 0 && !s.usedNonces.has[u32be(m, 4)][u64be(m, 12)]
+//@ macro toModule(m)          := m[52:84] == modulePadded()
+//@ macro burnOK(s, m)         := !bmPausedIn(s) && len(m) == 248 && u32be(m, 116) == 0 && s.tokenPairs.has[u32be(m, 4)][m[120:152]] && s.messengers.has[u32be(m, 4)] && m[20:52] == s.messengers.addr[u32be(m, 4)]
+//@ macro mintDenom(s, m)      := lower(s.tokenPairs.local[u32be(m, 4)][m[120:152]])
+
+//@ func (msgServer) ReceiveMessage(goCtx, msg) (resp, err)
+//@ ensures[C03.ok C01.gate C14.ok] (err == nil) <==> (attested(old(st), msg.Message, old(msg.Attestation)) && headerOK(old(st), msg.Message, msg.From) && (toModule(msg.Message) ? (burnOK(old(st), msg.Message) && !depFails(0) && !emitErr(0) && !emitErr(1)) : !emitErr(0)))
+//@ ensures[C12.sr]    err == nil ==> !srPausedIn(old(st))
+//@ ensures[C12.bm]    err == nil && toModule(msg.Message) ==> !bmPausedIn(old(st))
+//@ ensures[C02.fresh] err == nil ==> len(msg.Message) >= 116 && !old(st.usedNonces.has[u32be(msg.Message, 4)][u64be(msg.Message, 12)])
+//@ ensures[C02.mark]  err == nil ==> st.usedNonces.has[u32be(msg.Message, 4)][u64be(msg.Message, 12)]
+//@ ensures[C14.mint]  depFails(0) && toModule(msg.Message) ==> err != nil
+//@ calls[C04.mint C14.mint C05.others] (len(msg.Message) >= 116 && toModule(msg.Message) ? [Mint{From: bech32(moduleAddr), Address: bech32(msg.Message[164:184]), Denom: mintDenom(old(st), msg.Message), Amount: u256be(msg.Message, 184)}] : [])
+//@ emits[C04.events C14.events C05.others] (len(msg.Message) >= 116 && toModule(msg.Message) ? [MintAndWithdraw{MintRecipient: msg.Message[152:184], Amount: u256be(msg.Message, 184), MintToken: mintDenom(old(st), msg.Message)}, MessageReceived{Caller: msg.From, SourceDomain: u32be(msg.Message, 4), Nonce: u64be(msg.Message, 12), Sender: msg.Message[20:52], MessageBody: msg.Message[116:]}] : [MessageReceived{Caller: msg.From, SourceDomain: u32be(msg.Message, 4), Nonce: u64be(msg.Message, 12), Sender: msg.Message[20:52], MessageBody: msg.Message[116:]}])
+//@ modifies[C15.frame C02.frame C11.frame C12.frame C13.frame C07.frame] st.usedNonces[u32be(msg.Message, 4)][u64be(msg.Message, 12)]
+
+// ---- replacements (C09)
+
+//@ macro replaceOK(s, orig, att, from, newBody, newCaller) := !srPausedIn(s) && s.threshold.set && validAtt(orig, att, stAttestersOf(s), s.threshold.val) && len(orig) >= 116 && validBech32(from) && pad32(accBytes(from)) == orig[20:52] && u32be(orig, 4) == 4 && bodyFits(s, len(newBody)) && orig[52:84] != zeros(32) && len(newCaller) == 32
+
+//@ func (msgServer) ReplaceMessage(goCtx, msg) (resp, err)
+//@ ensures[C09.ok C01.gate] (err == nil) <==> (replaceOK(old(st), msg.OriginalMessage, old(msg.OriginalAttestation), msg.From, msg.NewMessageBody, msg.NewDestinationCaller) && !emitErr(0))
+//@ ensures[C12.sr]    err == nil ==> !srPausedIn(old(st))
+//@ emits[C09.keep C06.replace C07.reuse C05.own] [MessageSent{Message: encMessage(0, 4, u32be(msg.OriginalMessage, 8), u64be(msg.OriginalMessage, 12), msg.OriginalMessage[20:52], msg.OriginalMessage[52:84], msg.NewDestinationCaller, msg.NewMessageBody)}]
+//@ calls[C09.inert C04.others C05.others] []
+//@ modifies[C15.frame C09.inert C07.frame C02.frame C11.frame C12.frame C13.frame] none
+
+//@ func (msgServer) ReplaceDepositForBurn(goCtx, msg) (resp, err)
+//@ ensures[C09.ok C01.gate] (err == nil) <==> (!bmPausedIn(old(st)) && len(msg.OriginalMessage) == 248 && validBech32(msg.From) && pad32(accBytes(msg.From)) == msg.OriginalMessage[216:248] && msg.NewMintRecipient != zeros(32) && len(msg.NewMintRecipient) == 32 && replaceOK(old(st), msg.OriginalMessage, old(msg.OriginalAttestation), bech32(moduleAddr), zeros(132), msg.NewDestinationCaller) && !emitErr(0) && !emitErr(1))
+//@ ensures[C12.bm]    err == nil ==> !bmPausedIn(old(st)) && !srPausedIn(old(st))
+//@ ensures[C09.module C05.module] err == nil ==> msg.OriginalMessage[20:52] == modulePadded()
+//@ emits[C09.keep C06.replace C07.reuse C05.own] [MessageSent{Message: encMessage(0, 4, u32be(msg.OriginalMessage, 8), u64be(msg.OriginalMessage, 12), msg.OriginalMessage[20:52], msg.OriginalMessage[52:84], msg.NewDestinationCaller, encBurn(u32be(msg.OriginalMessage, 116), msg.OriginalMessage[120:152], msg.NewMintRecipient, u256be(msg.OriginalMessage, 184), msg.OriginalMessage[216:248]))}, DepositForBurn{Nonce: u64be(msg.OriginalMessage, 12), BurnToken: hexenc(keccak(msg.OriginalMessage[120:152])), Amount: u256be(msg.OriginalMessage, 184), Depositor: msg.From, MintRecipient: msg.NewMintRecipient, DestinationDomain: u32be(msg.OriginalMessage, 8), DestinationTokenMessenger: msg.OriginalMessage[52:84], DestinationCaller: msg.NewDestinationCaller}]
+//@ calls[C09.inert C04.others C05.others] []
+//@ modifies[C15.frame C09.inert C07.frame C02.frame C11.frame C12.frame C13.frame] none
